@@ -1,19 +1,29 @@
 #!/usr/bin/env python3
-"""C07: pull the table-shaped part of `user_name_to_file_name` out of norad's src/util.rs and regenerate
-lean/Norad/Generated/FileNameConsts.lean (DESIGN 3.5).
+"""C07: source-level tie of `user_name_to_file_name` (src/util.rs), two generated files.
 
-Sections (each falls back to the committed pinned copy tools/pinned/FileNameConsts.lean when its anchor in the
-source is not found - a refactor is never an alarm; the result then says `extraction: pinned`):
+(1) lean/Norad/Generated/FileNameConsts.lean - the table-shaped part (DESIGN 3.5): MAX_LEN, NUMBER_LEN,
+    SPECIAL_ILLEGAL, SPECIAL_RESERVED, the counter range, the affix literals of the two wrappers.
+(2) lean/Norad/Generated/FileNameFn.lean - a statement-by-statement TRANSLATION of the function and its two
+    wrappers into `C07.Gen.*` over the same `Str` / `U` / `lower` / `accept` parameters as Model/C07.lean:
 
-  maxLen     const MAX_LEN: usize = N;
-  numberLen  const NUMBER_LEN: usize = N;
-  illegal    static SPECIAL_ILLEGAL: &[char] = &[ 'c', .. ];
-  reserved   static SPECIAL_RESERVED: &[&str] = &[ "w", .. ];
-  counter    for counter in LO..HI u8   (HI exclusive; `..=` is normalised)
-  affixes    the (prefix, suffix) literals the two wrappers pass to user_name_to_file_name
+      escape    the per-character loop: the arms of `match c` (pattern, guard, pushed characters), in source order
+      reserved  `if let Some(stem) = result.split('.').next() { if SPECIAL_RESERVED.contains(&stem) { result.insert(0, '_'); } }`
+      clip      `if <len expr> > <len expr> { let mut boundary = <expr>; while !is_char_boundary { boundary -= 1 } truncate }`
+                (also the plain `result.truncate(<expr>)` without the walk)
+      trailing  guard (`suffix.is_empty() &&`, `ends_with([..])`), the backwards walk's character set, the replacement
+      cut       the if/else in front of the counter loop (same statement grammar as clip)
+      counter   `for counter in ..`: format width, the argument of `accept_path`, the truncation at the end of a try,
+                the `panic!` after the last try
+      main      the ORDER of the blocks and the argument of the first `accept_path` call
+      wrappers  prefix, suffix and closure of `default_file_name_for_glyph_name` / `_layer_name`
 
-The tie theorems of Norad/Props/C07.lean (`source_*`, by `decide`) compare these with the constants of the model
-and with the independent tables of Spec/C07.lean, i.e. they are about what the code says NOW.
+    Props/C07.lean proves `source_*_eq_model` (function equality) for every section, so every C07 theorem is
+    re-checked against the source as it stands.
+
+Policy: a translator never IGNORES a statement - every statement of the function body has to be one of the known
+shapes (or exactly one of the known declaration / debug_assert texts).  Unknown shape => that section is taken from
+the pinned copy (tools/pinned/FileNameFn.lean), `extraction: pinned`, never an alarm (the behavioural correspondence
+remains the tie).  Known shape with different content => the generated definition differs and its theorem fails.
 """
 import os
 import re
@@ -193,17 +203,620 @@ def generate(repo):
     return HEADER + "\n".join(parts) + "\nend Generated.FileNameConsts\n", fell_back
 
 
+# ====================================================================================================
+# (2) the translator
+# ====================================================================================================
+
+FN_OUT = os.path.join(ROOT, "lean", "Norad", "Generated", "FileNameFn.lean")
+FN_PINNED = os.path.join(ROOT, "tools", "pinned", "FileNameFn.lean")
+C = "Generated.FileNameConsts."
+CHAR_LIT = r"'(?:\\.[^']*|[^'\\])'"
+
+
+def strip_comments(src):
+    """remove // comments (the function body has no string literal containing //)"""
+    return re.sub(r"//[^\n]*", "", src)
+
+
+def norm(t):
+    return re.sub(r"\s+", " ", t).strip()
+
+
+def flat(t):
+    return re.sub(r"\s+", "", t)
+
+
+def skip_literal(t, i):
+    """index after a char or string literal starting at t[i], else i"""
+    if t[i] == "'":
+        m = re.match(CHAR_LIT, t[i:])
+        return i + m.end() if m else i
+    if t[i] == '"':
+        m = re.match(r'"(?:\\.|[^"\\])*"', t[i:])
+        return i + m.end() if m else i
+    return i
+
+
+def split_statements(block):
+    """top-level statements of a brace-less block text; a block statement (`if/for/while/match .. { }`) ends at its
+    closing brace unless `else` follows"""
+    out, i, start, depth = [], 0, 0, 0
+    n = len(block)
+    while i < n:
+        j = skip_literal(block, i)
+        if j != i:
+            i = j
+            continue
+        c = block[i]
+        if c in "{([":
+            depth += 1
+        elif c in "})]":
+            depth -= 1
+            if depth < 0:
+                raise NotFound("unbalanced block")
+            if depth == 0 and c == "}":
+                head = block[start:i + 1].lstrip()
+                if re.match(r"(if|for|while|match|loop)\b", head):
+                    rest = block[i + 1:].lstrip()
+                    if not rest.startswith("else"):
+                        out.append(block[start:i + 1])
+                        start = i + 1
+        elif c == ";" and depth == 0:
+            out.append(block[start:i + 1])
+            start = i + 1
+        i += 1
+    if block[start:].strip():
+        out.append(block[start:])
+    return [norm(x) for x in out if x.strip()]
+
+
+def braces(t, i=0):
+    """(inside, index after) of the brace block starting at the first `{` at or after i (literals skipped)"""
+    n = len(t)
+    while i < n and t[i] != "{":
+        j = skip_literal(t, i)
+        i = j if j != i else i + 1
+    if i >= n:
+        raise NotFound("block")
+    depth, k = 0, i
+    while k < n:
+        j = skip_literal(t, k)
+        if j != k:
+            k = j
+            continue
+        if t[k] == "{":
+            depth += 1
+        elif t[k] == "}":
+            depth -= 1
+            if depth == 0:
+                return t[i + 1:k], k + 1
+        k += 1
+    raise NotFound("block")
+
+
+# ---------------------------------------------------------------- arithmetic expressions over byte lengths
+
+ATOMS = [(r"result\.len\(\)", "usize result"), (r"suffix\.len\(\)", "usize suf"), (r"prefix\.len\(\)", "usize pre"),
+         (r"MAX_LEN\b", C + "maxLen"), (r"NUMBER_LEN\b", C + "numberLen"), (r"boundary\b", "boundary")]
+
+
+class Expr:
+    def __init__(self, op, l=None, r=None, atom=None):
+        self.op, self.l, self.r, self.atom = op, l, r, atom
+
+    def lean(self):
+        if self.op == "atom":
+            return self.atom
+        r = self.r.lean()
+        if self.r.op != "atom":
+            r = "(" + r + ")"
+        return "%s %s %s" % (self.l.lean(), self.op, r)
+
+    def arg(self):
+        t = self.lean()
+        return t if re.fullmatch(r"\w+", t) else "(" + t + ")"
+
+
+def parse_expr(t):
+    t = t.strip()
+    e, rest = _expr(t)
+    if rest.strip():
+        raise NotFound("expression: " + t)
+    return e
+
+
+def _expr(t):
+    l, t = _term(t)
+    while True:
+        m = re.match(r"\s*([+-])\s*(?![=])", t)
+        if not m:
+            return l, t
+        r, t = _term(t[m.end():])
+        l = Expr(m.group(1), l, r)
+
+
+def _term(t):
+    t = t.lstrip()
+    e = None
+    for pat, lean in ATOMS:
+        m = re.match(pat, t)
+        if m:
+            e, t = Expr("atom", atom=lean), t[m.end():]
+            break
+    if e is None:
+        m = re.match(r"(\d+)(?:usize)?\b", t)
+        if m:
+            e, t = Expr("atom", atom=m.group(1)), t[m.end():]
+        elif t.startswith("("):
+            e, t = _expr(t[1:])
+            if not t.lstrip().startswith(")"):
+                raise NotFound("expression")
+            t = t.lstrip()[1:]
+            e = Expr("atom", atom="(" + e.lean() + ")") if e.op != "atom" else e
+        else:
+            raise NotFound("expression atom: " + t[:40])
+    while True:
+        m = re.match(r"\.saturating_(add|sub)\(", t)
+        if not m:
+            return e, t
+        inner, t = _expr(t[m.end():])
+        if not t.startswith(")"):
+            raise NotFound("expression")
+        t = t[1:]
+        e = Expr("+" if m.group(1) == "add" else "-", e, inner)
+
+
+def parse_cond(t):
+    m = re.fullmatch(r"(.+?)\s(>=|<=|>|<)\s(.+)", t.strip())
+    if not m:
+        raise NotFound("condition: " + t)
+    op = {">": ">", "<": "<", ">=": "≥", "<=": "≤"}[m.group(2)]
+    return "%s %s %s" % (parse_expr(m.group(1)).lean(), op, parse_expr(m.group(3)).lean())
+
+
+WALK = "while !result.is_char_boundary(boundary) { boundary -= 1; }"
+
+
+def truncation(block):
+    """the statements of a clipping block -> Lean term of type Option Str"""
+    st = split_statements(block)
+    if len(st) == 3:
+        m = re.fullmatch(r"let mut boundary = (.+);", st[0])
+        if m and st[1] == WALK and st[2] == "result.truncate(boundary);":
+            return "truncateAt result (backoff result %s)" % parse_expr(m.group(1)).arg()
+    if len(st) == 2:
+        m = re.fullmatch(r"let (?:mut )?boundary = (.+);", st[0])
+        if m and st[1] == "result.truncate(boundary);":
+            return "truncateAt result %s" % parse_expr(m.group(1)).arg()
+    if len(st) == 1:
+        m = re.fullmatch(r"result\.truncate\((.+)\);", st[0])
+        if m:
+            return "truncateAt result %s" % parse_expr(m.group(1)).arg()
+    raise NotFound("clipping block: " + " ".join(st)[:80])
+
+
+HELPERS = {}   # name -> Lean term over `result`, for one-argument helper functions of util.rs with a known body
+
+
+def scan_helpers(src):
+    """`fn f(s: &str) -> Cow<'_, str> { if s.chars().any(char::is_uppercase) { Cow::Owned(s.to_lowercase()) } else
+    { Cow::Borrowed(s) } }`: lower-casing only when some character is `is_uppercase` - NOT the same function"""
+    HELPERS.clear()
+    for m in re.finditer(r"\bfn\s+(\w+)\s*\(\s*(\w+)\s*:\s*&str\s*\)\s*->\s*Cow<'_,\s*str>", src):
+        try:
+            body = norm(fn_body(src, m.group(1)))
+        except NotFound:
+            continue
+        v = m.group(2)
+        if body == "{ if %s.chars().any(char::is_uppercase) { Cow::Owned(%s.to_lowercase()) } else { Cow::Borrowed(%s) } }" % (v, v, v):
+            HELPERS[m.group(1)] = "(if result.any U = true then lower result else result)"
+
+
+def accept_arg(t):
+    t = t.strip()
+    if t == "&result.to_lowercase()":
+        return "(lower result)"
+    if t == "&result":
+        return "result"
+    m = re.fullmatch(r"&(\w+)\(&result\)", t)
+    if m and m.group(1) in HELPERS:
+        return HELPERS[m.group(1)]
+    raise NotFound("argument of accept_path: " + t)
+
+
+def chars_of(t):
+    cs = [unescape(x[1:-1]) for x in re.findall(CHAR_LIT, t)]
+    if any(len(c) != 1 or ord(c) >= 0x80 for c in cs):
+        raise NotFound("non-ASCII character in a one-byte context")
+    return cs
+
+
+# ---------------------------------------------------------------- sections
+
+def t_escape(stmt):
+    m = re.fullmatch(r"for c in name\.chars\(\) \{ match c \{ (.*) \} \}", stmt)
+    if not m:
+        raise NotFound("per-character loop")
+    t = m.group(1).strip()
+    arms = []
+    while t:
+        m = re.match(r"(%s|c)(?: if (.+?))? => " % CHAR_LIT, t)
+        if not m:
+            raise NotFound("match arm: " + t[:50])
+        pat, guard = m.group(1), m.group(2)
+        t = t[m.end():]
+        if t.startswith("{"):
+            body, k = braces(t)
+            t = t[k:].lstrip().lstrip(",").lstrip()
+            stmts = split_statements(body)
+        else:
+            k = t.index(",") if "," in t else len(t)
+            # a char literal may be ',': search the first comma outside literals
+            i = 0
+            while i < len(t):
+                j = skip_literal(t, i)
+                if j != i:
+                    i = j
+                    continue
+                if t[i] == ",":
+                    break
+                i += 1
+            stmts = [t[:i].strip() + ";"]
+            t = t[i + 1:].lstrip()
+        pushed = []
+        for st in stmts:
+            pm = re.fullmatch(r"result\.push\((%s|c)\);" % CHAR_LIT, st)
+            if not pm:
+                raise NotFound("arm statement: " + st)
+            pushed.append("c" if pm.group(1) == "c" else lean_char(unescape(pm.group(1)[1:-1])))
+        conds = []
+        if pat != "c":
+            conds.append("c = " + lean_char(unescape(pat[1:-1])))
+        if guard is not None:
+            g = {"result.is_empty()": "atStart = true", "SPECIAL_ILLEGAL.contains(&c)": "c ∈ " + C + "illegal",
+                 "c.is_uppercase()": "U c = true",
+                 "c.is_ascii_uppercase()": "(65 ≤ c.toNat ∧ c.toNat ≤ 90)"}.get(guard.strip())
+            if g is None:
+                raise NotFound("arm guard: " + guard)
+            conds.append(g)
+        arms.append((conds, pushed))
+    if not arms or arms[-1][0]:
+        raise NotFound("last arm is not a catch-all")
+    lines = ["/-- the arms of `match c` in the per-character loop, in source order -/",
+             "def escChar (U : Char → Bool) (atStart : Bool) (c : Char) : Str :="]
+    for k, (conds, pushed) in enumerate(arms):
+        val = "[" + ", ".join(pushed) + "]"
+        if k == len(arms) - 1:
+            lines.append("  else " + val if k else "  " + val)
+        else:
+            if not conds:
+                raise NotFound("catch-all arm before the last")
+            lines.append("  %sif %s then %s" % ("else " if k else "", " ∧ ".join(conds), val))
+    lines += ["", "/-- `for c in name.chars() { match c { .. } }` -/",
+              "def escapeInto (U : Char → Bool) : Str → Str → Str",
+              "  | result, [] => result",
+              "  | result, c :: cs => escapeInto U (result ++ escChar U result.isEmpty c) cs"]
+    return "\n".join(lines) + "\n"
+
+
+def t_reserved(stmt):
+    m = re.fullmatch(r"if let Some\(stem\) = result\.split\((%s)\)\.next\(\) \{ if SPECIAL_RESERVED\.contains\(&stem\) "
+                     r"\{ result\.insert\((\d+), (%s)\); \} \}" % (CHAR_LIT, CHAR_LIT), stmt)
+    if not m:
+        raise NotFound("reserved-name test")
+    sep, pos, ch = lean_char(unescape(m.group(1)[1:-1])), m.group(2), lean_char(unescape(m.group(3)[1:-1]))
+    return ("/-- `result.split(%s).next()` -/\n"
+            "def stem (result : Str) : Str := result.takeWhile (· ≠ %s)\n\n"
+            "/-- `if let Some(stem) = .. { if SPECIAL_RESERVED.contains(&stem) { result.insert(%s, %s); } }` -/\n"
+            "def insertReserved (result : Str) : Str :=\n"
+            "  if stem result ∈ %sreserved then insertAtByte result %s %s else result\n"
+            % (sep, sep, pos, ch, C, pos, ch))
+
+
+def t_clip(stmt):
+    m = re.match(r"if (.+?) \{", stmt)
+    if not m or not stmt.endswith("}"):
+        raise NotFound("clip statement")
+    body, k = braces(stmt)
+    if stmt[k:].strip():
+        raise NotFound("clip statement has an else")
+    return ("def clip (pre suf result : Str) : Option Str :=\n  if %s then\n    %s\n  else some result\n"
+            % (parse_cond(m.group(1)), truncation(body)))
+
+
+def t_cut(stmt):
+    m = re.match(r"if (.+?) \{", stmt)
+    if not m:
+        raise NotFound("cut statement")
+    b1, k = braces(stmt)
+    rest = stmt[k:].strip()
+    if not rest.startswith("else"):
+        raise NotFound("cut statement without else")
+    b2, k2 = braces(rest)
+    if rest[k2:].strip() or rest[4:rest.index("{")].strip():
+        raise NotFound("cut statement")
+    return ("def cutForCounter (pre suf result : Str) : Option Str :=\n  if %s then\n    %s\n  else\n    %s\n"
+            % (parse_cond(m.group(1)), truncation(b1), truncation(b2)))
+
+
+def t_trailing(stmt):
+    m = re.fullmatch(r"if (suffix\.is_empty\(\) && )?result\.ends_with\(\[(.+?)\]\) \{ let mut boundary = result\.len\(\); "
+                     r"for \(i, c\) in result\.char_indices\(\)\.rev\(\) \{ if (.+?) \{ break; \} boundary = i; \} "
+                     r"let underscores = \"(.)\"\.repeat\(result\.len\(\) - boundary\); "
+                     r"result\.replace_range\(boundary\.\.result\.len\(\), &underscores\); \}", stmt)
+    if not m:
+        raise NotFound("trailing period/space block")
+    guard_set = chars_of(m.group(2))
+    cond = m.group(3)
+    if not re.fullmatch(r"c != %s(?: && c != %s)*" % (CHAR_LIT, CHAR_LIT), cond):
+        raise NotFound("trailing walk condition: " + cond)
+    walk_set = chars_of(cond)
+    rep = m.group(4)
+    if ord(rep) >= 0x80:
+        raise NotFound("replacement is not one byte")
+    ls = lambda cs: "[" + ", ".join(lean_char(c) for c in cs) + "]"
+    guard = ("suf.isEmpty = true ∧ " if m.group(1) else "") + "endsWithAny result %s = true" % ls(guard_set)
+    return ("/-- the `char_indices().rev()` walk, `\"%s\".repeat(..)` and `replace_range` -/\n"
+            "def fixTrailing (result : Str) : Str :=\n"
+            "  let k := (result.reverse.takeWhile (fun c => %s.contains c)).length\n"
+            "  result.take (result.length - k) ++ List.replicate k %s\n\n"
+            "def trailing (pre suf result : Str) : Str :=\n"
+            "  if %s then fixTrailing result else result\n" % (rep, ls(walk_set), lean_char(rep), guard))
+
+
+def t_counter(stmts):
+    """[`let mut found_unique = false;`, `for counter in ..`, `if !found_unique { panic!(..) }`]"""
+    if len(stmts) != 3 or stmts[0] != "let mut found_unique = false;":
+        raise NotFound("counter loop frame")
+    if not re.fullmatch(r'if !found_unique \{ panic!\("[^"]*"\) \}', stmts[2]):
+        raise NotFound("panic after the last try")
+    m = re.fullmatch(r"for counter in [0-9_]+ ?\.\.=? ?[0-9_]+(?:u8|u16|u32|u64|usize)? \{ (.*) \}", stmts[1])
+    if not m:
+        raise NotFound("counter loop")
+    body = split_statements(m.group(1))
+    if len(body) != 4:
+        raise NotFound("counter loop body")
+    f = re.fullmatch(r'write!\(&mut result, "\{:0>(\d+)\}", counter\)\.unwrap\(\);', body[0])
+    if not f or body[1] != "result.push_str(suffix);":
+        raise NotFound("counter formatting")
+    a = re.fullmatch(r"if accept_path\((.+?)\) \{ found_unique = true; break; \}", body[2])
+    tr = re.fullmatch(r"result\.truncate\((.+)\);", body[3])
+    if not a or not tr:
+        raise NotFound("counter loop body")
+    digits = "twoDigits counter" if f.group(1) == "2" else "padDigits %s counter" % f.group(1)
+    return ("/-- `for counter in LO..HI { .. }` with `fuel` = remaining iterations; `none` = the `panic!` after the last try -/\n"
+            "def tryCounters (U : Char → Bool) (lower : Str → Str) (accept : Nat → Str → Bool) (pre suf : Str) :\n"
+            "    Nat → Nat → Str → Option Str\n"
+            "  | 0, _, _ => none\n"
+            "  | fuel + 1, counter, result =>\n"
+            "    let result := result ++ %s\n"
+            "    let result := result ++ suf\n"
+            "    if accept counter %s = true then some result\n"
+            "    else\n"
+            "      match truncateAt result %s with\n"
+            "      | none => none\n"
+            "      | some result => tryCounters U lower accept pre suf fuel (counter + 1) result\n"
+            % (digits, accept_arg(a.group(1)), parse_expr(tr.group(1)).arg()))
+
+
+def t_wrappers(src):
+    out = []
+    for fn, lean_name in (("default_file_name_for_glyph_name", "glyphFileName"),
+                          ("default_file_name_for_layer_name", "layerDirName")):
+        body = norm(strip_comments(fn_body(src, fn)))
+        m = re.fullmatch(r'\{ user_name_to_file_name\(name, "((?:\\.|[^"\\])*)", "((?:\\.|[^"\\])*)", '
+                         r'\|name\| !existing\.contains\(name\)\) \}', body)
+        if not m:
+            raise NotFound("wrapper " + fn)
+        out.append("/-- `%s` -/\n"
+                   "def %s (U : Char → Bool) (lower : Str → Str) (name : Str) (existing : List Str) : Option Str :=\n"
+                   "  userNameToFileName U lower name %s %s (fun _ name => !existing.contains name)\n"
+                   % (fn, lean_name, lean_str(unescape(m.group(1))), lean_str(unescape(m.group(2)))))
+    return "\n".join(out)
+
+
+# declarations and assertions that do not touch `result`: exactly these texts (flattened), nothing else
+KNOWN_DECL = [
+    r"letname=name\.as_ref\(\);",
+    r"letmutresult=String::with_capacity\(prefix\.len\(\)\+name\.len\(\)\+suffix\.len\(\)\);",
+    r"staticSPECIAL_ILLEGAL:&\[char\]=&\[.*\];",
+    r"staticSPECIAL_RESERVED:&\[&str\]=&\[.*\];",
+    r"constMAX_LEN:usize=[0-9_]+;",
+    r"constNUMBER_LEN:usize=[0-9_]+;",
+    r'debug_assert!\(!prefix\.chars\(\)\.any\(\|c\|SPECIAL_ILLEGAL\.contains\(&c\)\),"[^"]*"\);',
+    r'debug_assert!\(suffix\.is_empty\(\)\|\|suffix\.starts_with\(\'\.\'\),"[^"]*"\);',
+    r'debug_assert!\(!suffix\.chars\(\)\.any\(\|c\|SPECIAL_ILLEGAL\.contains\(&c\)\),"[^"]*"\);',
+    r'debug_assert!\(!suffix\.ends_with\(\[\'\.\',\'\'\]\),"[^"]*"\);',
+]
+
+
+def is_decl(stmt):
+    f = flat(stmt)
+    return any(re.fullmatch(p, f) for p in KNOWN_DECL)
+
+
+def classify(stmt):
+    if is_decl(stmt):
+        return "decl"
+    if stmt == "result.push_str(prefix);":
+        return "push_prefix"
+    if stmt == "result.push_str(suffix);":
+        return "push_suffix"
+    if stmt.startswith("for c in name.chars()"):
+        return "escape"
+    if stmt.startswith("if let Some(stem) ="):
+        return "reserved"
+    if stmt.startswith("if !accept_path("):
+        return "accept"
+    if stmt.startswith("if ") and "replace_range" in stmt:
+        return "trailing"
+    if stmt.startswith("if ") and "truncate" in stmt and "accept_path" not in stmt:
+        return "clip"
+    if stmt == "result.into()":
+        return "into"
+    return "unknown"
+
+
+def translate_fn(src):
+    """-> ({section: text}, {section: reason it could not be translated})"""
+    done, failed = {}, {}
+
+    def attempt(name, f, *a):
+        try:
+            done[name] = f(*a)
+        except (NotFound, IndexError, ValueError, KeyError) as ex:
+            failed[name] = str(ex)
+
+    src = strip_comments(src)   # first: a commented-out line of the body contains a brace
+    scan_helpers(src)
+    body = fn_body(src, "user_name_to_file_name").strip()[1:-1]
+    top = split_statements(body)
+    kinds = [classify(s) for s in top]
+    by_kind = {}
+    for k, s in zip(kinds, top):
+        by_kind.setdefault(k, []).append(s)
+    for sec, f in (("escape", t_escape), ("reserved", t_reserved), ("clip", t_clip), ("trailing", t_trailing)):
+        if len(by_kind.get(sec, [])) == 1:
+            attempt(sec, f, by_kind[sec][0])
+        else:
+            failed[sec] = "statement not found (or found %d times)" % len(by_kind.get(sec, []))
+    # inside `if !accept_path(..) { .. }`
+    inner_ok, first_arg = False, None
+    if len(by_kind.get("accept", [])) == 1:
+        st = by_kind["accept"][0]
+        m = re.match(r"if !accept_path\((.+?)\) \{", st)
+        inner, k = braces(st)
+        if st[k:].strip():
+            failed["main"] = "else after the accept test"
+        else:
+            try:
+                first_arg = accept_arg(m.group(1))
+            except NotFound as ex:
+                failed["main"] = str(ex)
+            ist = [x for x in split_statements(inner) if not is_decl(x)]
+            cut = [x for x in ist if x.startswith("if ") and "truncate" in x and "found_unique" not in x]
+            if len(cut) == 1:
+                attempt("cut", t_cut, cut[0])
+            else:
+                failed["cut"] = "statement not found"
+            rest = [x for x in ist if x not in cut]
+            attempt("counter", t_counter, rest)
+            # order inside: cut, then the three statements of the loop frame, nothing else
+            inner_ok = len(cut) == 1 and len(rest) == 3 and ist == cut + rest
+    else:
+        failed["cut"] = failed["counter"] = "accept test not found"
+    attempt("wrappers", t_wrappers, src)
+    # main: every statement known, one of each step, `accept` last before `into`
+    steps = [k for k in kinds if k != "decl"]
+    need = ["push_prefix", "escape", "reserved", "clip", "trailing", "push_suffix", "accept", "into"]
+    if "main" in failed:
+        pass
+    elif "unknown" in kinds:
+        failed["main"] = "unknown statement: " + top[kinds.index("unknown")][:70]
+    elif sorted(steps) != sorted(need) or steps[-2:] != ["accept", "into"] or not inner_ok or first_arg is None:
+        failed["main"] = "blocks are not the known set: %s" % steps
+    else:
+        L = ["def userNameToFileName (U : Char → Bool) (lower : Str → Str) (name pre suf : Str)",
+             "    (accept : Nat → Str → Bool) : Option Str :=", "  let result : Str := []"]
+        ind = "  "
+        for k in steps[:-2]:
+            if k == "push_prefix":
+                L.append(ind + "let result := result ++ pre")
+            elif k == "push_suffix":
+                L.append(ind + "let result := result ++ suf")
+            elif k == "escape":
+                L.append(ind + "let result := escapeInto U result name")
+            elif k == "reserved":
+                L.append(ind + "let result := insertReserved result")
+            elif k == "trailing":
+                L.append(ind + "let result := trailing pre suf result")
+            elif k == "clip":
+                L += [ind + "match clip pre suf result with", ind + "| none => none", ind + "| some result =>"]
+                ind += "  "
+        L += [ind + "if accept 0 %s = true then some result" % first_arg, ind + "else",
+              ind + "  match cutForCounter pre suf result with", ind + "  | none => none", ind + "  | some result =>",
+              ind + "    tryCounters U lower accept pre suf", ind + "      (%scounterHi - %scounterLo)" % (C, C),
+              ind + "      %scounterLo result" % C]
+        done["main"] = "\n".join(L) + "\n"
+    return done, failed
+
+
+FN_SECTIONS = ["escape", "reserved", "clip", "trailing", "cut", "counter", "main", "wrappers"]
+
+FN_HEADER = """import Norad.Model.C07
+import Norad.Generated.FileNameConsts
+/-!
+GENERATED by tools/extract_filename_consts.py from norad's src/util.rs on every `./check C07` run.  Do not edit.
+Statement-by-statement translation of `user_name_to_file_name` and its two wrappers.  Primitives of `std`
+(`str::len` = `usize`, `str::is_char_boundary`, `String::truncate`, the `while !is_char_boundary { b -= 1 }`
+walk = `backoff`, `{:0>2}` of a counter below 100 = `twoDigits`) are the ones of `Model/C07.lean`.  A section
+whose statements do not have the known shape is taken from tools/pinned/FileNameFn.lean (a refactor is not an alarm).
+-/
+namespace C07.Gen
+open C07
+
+/-- `String::insert(idx, ch)` (byte index) -/
+def insertAtByte : Str → Nat → Char → Str
+  | s, 0, x => x :: s
+  | [], _ + 1, x => [x]
+  | c :: cs, n + 1, x => c :: insertAtByte cs (n + 1 - c.utf8Size) x
+
+/-- `str::ends_with([..])` -/
+def endsWithAny (s : Str) (cs : List Char) : Bool :=
+  match s.getLast? with
+  | some c => cs.contains c
+  | none => false
+
+/-- `{:0>w}` of a counter: decimal digits, left-padded with `0` to width `w` -/
+def padDigits (w k : Nat) : Str :=
+  let d := (Nat.toDigits 10 k)
+  List.replicate (w - d.length) '0' ++ d
+
+"""
+
+
+def generate_fn(repo):
+    pinned = split_sections(open(FN_PINNED).read()) if os.path.exists(FN_PINNED) else {}
+    try:
+        src = open(os.path.join(repo, "src", "util.rs")).read()
+        done, failed = translate_fn(src)
+    except (OSError, NotFound, IndexError, ValueError) as ex:
+        done, failed = {}, {n: str(ex) for n in FN_SECTIONS}
+    parts, fell_back = [], []
+    for name in FN_SECTIONS:
+        if name in done:
+            body = done[name]
+        else:
+            if name not in pinned:
+                raise NotFound("section %s: %s (and no pinned copy)" % (name, failed.get(name)))
+            body = pinned[name]
+            fell_back.append("%s (%s)" % (name, failed.get(name, "?")))
+        parts.append("-- BEGIN %s\n%s-- END %s\n" % (name, body, name))
+    return FN_HEADER + "\n".join(parts) + "\nend C07.Gen\n", fell_back
+
+
+def write_if_changed(path, text):
+    old = open(path).read() if os.path.exists(path) else None
+    if old != text:
+        with open(path, "w") as f:
+            f.write(text)
+    return old != text
+
+
 def run():
     repo = os.environ.get("VERIF_REPO", "/repo").rstrip("/") or "/repo"
     text, fell_back = generate(repo)
-    old = open(OUT).read() if os.path.exists(OUT) else None
-    if old != text:
-        with open(OUT, "w") as f:
-            f.write(text)
+    changed = write_if_changed(OUT, text)
+    ftext, ffell = generate_fn(repo)
+    fchanged = write_if_changed(FN_OUT, ftext)
     ptext = open(PINNED).read() if os.path.exists(PINNED) else None
-    return {"extraction": "pinned" if fell_back else "full", "pinned_sections": fell_back, "source": repo,
-            "changed_since_last_run": old != text, "differs_from_pinned_copy": ptext is not None and ptext != text,
-            "table": os.path.relpath(OUT, ROOT)}
+    fptext = open(FN_PINNED).read() if os.path.exists(FN_PINNED) else None
+    allfell = fell_back + ffell
+    return {"extraction": "pinned" if allfell else "full", "pinned_sections": allfell, "source": repo,
+            "translated_sections": [n for n in FN_SECTIONS if not any(x.startswith(n + " ") for x in ffell)],
+            "changed_since_last_run": changed or fchanged,
+            "differs_from_pinned_copy": (ptext is not None and ptext != text) or (fptext is not None and fptext != ftext),
+            "table": os.path.relpath(OUT, ROOT), "translation": os.path.relpath(FN_OUT, ROOT)}
 
 
 if __name__ == "__main__":
@@ -213,4 +826,5 @@ if __name__ == "__main__":
         import shutil
         os.makedirs(os.path.dirname(PINNED), exist_ok=True)
         shutil.copy(OUT, PINNED)
+        shutil.copy(FN_OUT, FN_PINNED)
         print("pinned")
